@@ -382,3 +382,34 @@ func init() {
 		}
 	}
 }
+
+func runDebugPaths(spec string) int {
+	c, err := Load(repoDir(), "")
+	if err != nil {
+		fmt.Println(err)
+		return 2
+	}
+	parts := splitN(spec, ":", 2)
+	fn := c.Func(parts[0], parts[1])
+	if fn == nil {
+		fmt.Println("no such function")
+		return 2
+	}
+	paths, over := CollectPaths(c, SeqSpec{Fn: fn})
+	fmt.Println("paths", len(paths), "overflow", over)
+	for i, sp := range paths {
+		g := "-"
+		if sp.ErrGlobal != nil {
+			g = sp.ErrGlobal.Name()
+		}
+		ev := "-"
+		if sp.ErrVal != nil {
+			ev = fmt.Sprintf("%T %s", sp.ErrVal, sp.ErrVal.Name())
+		}
+		fmt.Printf("#%d panic=%v nil=%v nonnil=%v glob=%s errval=%s exit=%s\n", i, sp.Panic, sp.ErrNil, sp.ErrNonNil, g, ev, c.InstrPos(sp.Exit))
+		for _, t := range sp.Trace {
+			fmt.Println("      ", t)
+		}
+	}
+	return 0
+}
